@@ -168,6 +168,15 @@ def run_segments(cfg, segments, use_folder=None):
                         rets.append(("raised", type(e).__name__))
                         break
                     continue
+                if cfg.get("may_raise"):
+                    # a configuration the library may refuse at run time (a history-dependent sampler scheduled before enough points exist): whatever happens -
+                    # an exception, or anything else - is the outcome of the run, with the history so far
+                    try:
+                        rets.append(cal.calibrate(n))
+                    except Exception as e:  # noqa: BLE001
+                        rets.append(("raised", type(e).__name__))
+                        break
+                    continue
                 rets.append(cal.calibrate(n))
                 if folder and os.path.exists(os.path.join(folder, "calibration_params.json")):
                     from vp import leftovers
